@@ -157,10 +157,13 @@ type anomaly struct {
 var specificCtx = map[string]bool{
 	"dotimes-result": true, "macrolet-tmpl": true, "tmpl": true, "export-form": true,
 	"quoted-designator": true, "unquote": true, "function-form": true, "tmpl-qualified": true,
-	"macrolet-tmpl-qualified": true, "qualified": true, "set!-target": true,
+	"macrolet-tmpl-qualified": true, "qualified": true, "set!-target": true, "imported": true, "imported-other-file": true,
 }
 
 func refKey(kind string, o Occ) string {
+	if o.C == "def-macro-arg" {
+		return kind + "/def-macro-arg"
+	}
 	if strings.HasSuffix(o.C, "-shadowed") {
 		// the generator knows this template symbol has the spelling of a
 		// parameter/local of the macro body: whatever happened to it, the
@@ -189,6 +192,11 @@ func refKey(kind string, o Occ) string {
 func diagnose(c Case, minLeaves [][]leaf, generated map[string]string) []anomaly {
 	var out []anomaly
 	add := func(key, format string, a ...any) {
+		if strings.HasSuffix(key, "/def-macro-arg") || strings.Contains(key, "/def-macro-arg/") {
+			// whatever went wrong inside the arguments of a def-named macro
+			// call has one cause: the call was analysed as a definition form
+			key = "misparsed/def-macro-arg"
+		}
 		out = append(out, anomaly{key, fmt.Sprintf(format, a...)})
 	}
 	type nb struct {
@@ -226,6 +234,30 @@ func diagnose(c Case, minLeaves [][]leaf, generated map[string]string) []anomaly
 			}
 		}
 	}
+	exportAnomaly := map[int]bool{}
+	for fi, f := range c.Files {
+		ml := symLeaves(minLeaves[fi])
+		for i, o := range f.Occ {
+			if o.R == "ref" && o.C == "export-form" {
+				if ns := binderNew[o.B]; len(ns) > 0 && ns[len(ns)-1].name != ml[i] {
+					exportAnomaly[o.B] = true
+				}
+			}
+		}
+	}
+	binderPkg := map[int]string{}
+	usesPkg := make([]map[string]bool, len(c.Files))
+	for fi, f := range c.Files {
+		usesPkg[fi] = map[string]bool{}
+		for i, o := range f.Occ {
+			if o.R == "bind" && o.P != "" {
+				binderPkg[o.B] = o.P
+			}
+			if o.R == "op" && o.N == "use-package" && i+1 < len(f.Occ) && f.Occ[i+1].R == "pkg" {
+				usesPkg[fi][f.Occ[i+1].N] = true
+			}
+		}
+	}
 	tmplNew := map[int]string{}
 	for fi, f := range c.Files {
 		ml := symLeaves(minLeaves[fi])
@@ -233,6 +265,11 @@ func diagnose(c Case, minLeaves [][]leaf, generated map[string]string) []anomaly
 			nw := ml[i]
 			switch o.R {
 			case "op", "data", "kw", "cond", "pkg", "free":
+				if o.R == "kw" && o.B != 0 {
+					if ns := binderNew[o.B]; len(ns) > 0 && ns[0].name != binderOld[o.B] {
+						add("keyword-arg/param-renamed", "keyword argument %s is passed but the &key parameter %q was renamed to %q", o.N, binderOld[o.B], ns[0].name)
+					}
+				}
 				if nw != o.N {
 					k := "renamed/" + o.R
 					if o.C != "" {
@@ -250,6 +287,9 @@ func diagnose(c Case, minLeaves [][]leaf, generated map[string]string) []anomaly
 				if len(ns) == 0 || splitBinder[o.B] {
 					continue // nothing to compare with / already reported as split-binder
 				}
+				if exportAnomaly[o.B] && o.C != "export-form" {
+					continue // consequence of the ignored export form
+				}
 				want := ns[len(ns)-1].name
 				oq, on := splitQual(o.N)
 				nq, nn := splitQual(nw)
@@ -257,6 +297,16 @@ func diagnose(c Case, minLeaves [][]leaf, generated map[string]string) []anomaly
 					add("renamed/qualifier", "qualifier of %q became %q", o.N, nw)
 				}
 				old := binderOld[o.B]
+				if o.C == "export-form" && nn != want {
+					// the one known way to get here: the file that exports the
+					// name also use-packages the exporting package further down
+					k := "stale-ref/export-form"
+					if usesPkg[fi][binderPkg[o.B]] {
+						k += ":same-file-use-package"
+					}
+					add(k, "export form names %q (now %q) in %s but the definition was renamed to %q", o.N, nw, f.Path, want)
+					continue
+				}
 				switch {
 				case nn == want:
 				case nn == on && want != old:
@@ -270,16 +320,6 @@ func diagnose(c Case, minLeaves [][]leaf, generated map[string]string) []anomaly
 		}
 	}
 	// the un-minified client relies on these names
-	exportAnomaly := map[int]bool{}
-	for _, f := range c.Files {
-		for _, o := range f.Occ {
-			if o.R == "ref" && o.C == "export-form" {
-				if ns := binderNew[o.B]; len(ns) > 0 && ns[len(ns)-1].name != binderOld[o.B] {
-					exportAnomaly[o.B] = true
-				}
-			}
-		}
-	}
 	for _, sr := range c.ClientRefs {
 		if exportAnomaly[sr.B] || splitBinder[sr.B] {
 			continue // already reported as stale-ref/export-form
@@ -326,7 +366,7 @@ func diagnose(c Case, minLeaves [][]leaf, generated map[string]string) []anomaly
 // the failure: a binder split in two explains the stale references that
 // follow from it, and so on.
 func anomalyRank(key string) int {
-	for i, p := range []string{"split-binder/", "misbound-ref/", "renamed/", "split/", "stale-ref/export-form", "stale-ref/", "split-ref/", "orphan-rename/", "surface-renamed/", "collision/"} {
+	for i, p := range []string{"misparsed/", "split-binder/", "misbound-ref/", "keyword-arg/", "renamed/", "split/", "stale-ref/export-form", "stale-ref/", "split-ref/", "orphan-rename/", "surface-renamed/", "collision/"} {
 		if strings.HasPrefix(key, p) {
 			return i
 		}
@@ -397,13 +437,16 @@ func checkCase(c Case, ctx *vcommon.Ctx) *vcommon.Failure {
 	}
 	for i := range res.Files {
 		if !bytes.Equal(res.Files[i].Output, res2.Files[i].Output) {
-			return vcommon.Failf("determinism/output", "minifying %s twice gives different output:\n%s\nvs\n%s", c.Files[i].Path, res.Files[i].Output, res2.Files[i].Output)
+			if c.Expect != "" && strings.HasPrefix(c.Expect, "determinism/") {
+				return vcommon.Failf(c.Expect, "minifying %s twice gives different output:\n%s\nvs\n%s", c.Files[i].Path, res.Files[i].Output, res2.Files[i].Output)
+			}
+			return vcommon.Failf("determinism/output"+determinismCause(c), "minifying %s twice gives different output:\n%s\nvs\n%s", c.Files[i].Path, res.Files[i].Output, res2.Files[i].Output)
 		}
 	}
 	j1, _ := res.SymbolMap.JSON()
 	j2, _ := res2.SymbolMap.JSON()
 	if !bytes.Equal(j1, j2) {
-		return vcommon.Failf("determinism/map", "minifying twice gives different symbol maps:\n%s\nvs\n%s", j1, j2)
+		return vcommon.Failf("determinism/map"+determinismCause(c), "minifying twice gives different symbol maps:\n%s\nvs\n%s", j1, j2)
 	}
 
 	// the symbol map is a function
@@ -503,6 +546,13 @@ func checkCase(c Case, ctx *vcommon.Ctx) *vcommon.Failure {
 		ctx.Class("discard/budget")
 		return nil
 	}
+	if strings.Contains(to.text, "(lambda ") || strings.Contains(to.text, "#<builtin") {
+		// the ORIGINAL program prints a function: its output legitimately
+		// depends on parameter and local names, i.e. the case is outside
+		// "results forced to closure-free data"
+		ctx.Class("discard/prints-function")
+		return nil
+	}
 	tm := runSession(msrc, names)
 	if strings.HasPrefix(to.last, "ERR<") {
 		ctx.Class("outcome/error")
@@ -526,15 +576,12 @@ func checkCase(c Case, ctx *vcommon.Ctx) *vcommon.Failure {
 		detail := ""
 		if !annotated {
 			key = "mismatch/unannotated"
+			if c.Expect != "" {
+				key = c.Expect
+			}
 		}
 		if len(anomalies) > 0 {
-			pick := anomalies[0]
-			for _, a := range anomalies {
-				if !ctx.Known("mismatch:" + a.key) {
-					pick = a
-					break
-				}
-			}
+			pick := anomalies[0] // ranked: the one closest to a root cause
 			key = "mismatch:" + pick.key
 			var ds []string
 			for _, a := range anomalies {
@@ -567,6 +614,39 @@ func checkCase(c Case, ctx *vcommon.Ctx) *vcommon.Failure {
 		ctx.Note(fmt.Sprintf("%d symbols renamed, %d tokens rewritten; final outcome %s", len(sm.Entries), nRenamedTokens, to.last))
 	}
 	return nil
+}
+
+// determinismCause names the one situation known to make the output depend on
+// Go map iteration order: one global binding defined in two files of the
+// session (the generator gives both definitions the same binder id).
+func determinismCause(c Case) string {
+	where := map[int]map[int]bool{}
+	pkgsOf := map[string]map[string]bool{}
+	for fi, f := range c.Files {
+		for _, o := range f.Occ {
+			if o.R == "bind" && (o.K == "defun" || o.K == "gset" || o.K == "macro") {
+				if pkgsOf[o.N] == nil {
+					pkgsOf[o.N] = map[string]bool{}
+				}
+				pkgsOf[o.N][o.P] = true
+				if where[o.B] == nil {
+					where[o.B] = map[int]bool{}
+				}
+				where[o.B][fi] = true
+			}
+		}
+	}
+	for _, fs := range where {
+		if len(fs) > 1 {
+			return ":global-defined-in-two-files"
+		}
+	}
+	for _, ps := range pkgsOf {
+		if len(ps) > 1 {
+			return ":same-name-in-two-packages"
+		}
+	}
+	return ""
 }
 
 func dumpCase(c Case) string {
